@@ -96,6 +96,10 @@ DROPIN_FLAGS_QUICK = [(7, 7), (6, 3), (5, 6)]
 DROPIN_FLAGS_ALL = [(7, 7), (6, 3), (5, 6), (0, 7), (1, 1), (2, 4), (4, 2), (3, 5)]
 
 
+DROPIN_QUICK_PLAN = {'readd_other_base': (6, 3), 'unknown_target': (6, 3), 'hooks_newest_first': (6, 3), 'engine_refuses_second_ruleset': (6, 3),
+                     'add_remove': (5, 6), 'partial_unknown': (5, 6), 'remove_absent_then_add': (5, 6), 'readd_moves_front': (5, 6)}
+
+
 def _dropin_variants(seqs, flags, timeout):
     return [dict(name='%s_f%d%d' % (n, f0, f1), defs={'H_K': len(ops), 'H_OPS': '{' + ','.join(str(o) for o in ops) + '}', 'H_FLAGS': '{%d,%d}' % (f0, f1), 'H_MAXTARGET': 6, 'H_HOOKS': 1}, unwind=max(11, 2 * len(ops) + 3), reach_optional=True, timeout=timeout)
             for n, ops in seqs for (f0, f1) in flags]
@@ -108,8 +112,11 @@ H['dropin'] = dict(
     unwind=11, timeout=1200,   # oracle loop over 2*H_K+1 entries (H_K <= 4) + string capacity 8
     functions=['Oomd::Engine::Engine::', 'Oomd::Engine::Ruleset::mergeWithDropIn', 'Oomd::Engine::Ruleset::markDropIn', 'Oomd::Config2::compile', 'Oomd::DropInServiceAdaptor::', 'compileRuleset'],
     variants={
-        'quick': _dropin_variants(DROPIN_SEQS_QUICK, DROPIN_FLAGS_QUICK, 1500),
-        'thorough': _dropin_variants(DROPIN_SEQS_QUICK + DROPIN_SEQS_MORE, DROPIN_FLAGS_ALL, 3000),
+        # quick tier: every sequence once, the three permission sets spread over the sequences (the full cross product - and
+        # three_then_remove_middle - is in the thorough tier): the check has to stay well below 15 minutes on a loaded machine
+        'quick': [v for (n, ops) in DROPIN_SEQS_QUICK if n != 'three_then_remove_middle' for v in _dropin_variants([(n, ops)], [DROPIN_QUICK_PLAN.get(n, (7, 7))], 1500)],
+        'thorough': _dropin_variants([x for x in DROPIN_SEQS_QUICK if not x[0].startswith('engine_refuses')] + DROPIN_SEQS_MORE, DROPIN_FLAGS_ALL, 3000)
+                    + _dropin_variants([x for x in DROPIN_SEQS_QUICK if x[0].startswith('engine_refuses')], DROPIN_FLAGS_QUICK, 3000),
     },
 )
 
